@@ -18,7 +18,7 @@ ATT = "maltoolbox.attackgraph.attacker:Attacker."
 AGF = "maltoolbox.attackgraph.attackgraph:AttackGraph."
 SCOPE = {
     "quick": "histories: 2 attacker slots x 3 nodes, every applicable sequence of <=5 operations from {compromise(a,n), "
-             "undo(a,n), remove_attacker(a), add_attacker(a) plain / with 2 reached steps}, each call made from the attacker "
+             "undo(a,n), remove_attacker(a), add_attacker(a) plain / with 2 reached steps / with a reached step named twice}, each call made from the attacker "
              "side or the node side (two alternating side patterns for <=4 ops, one for 5); "
              "attach: language A{s} -- B{t,u}, model a0--b0, 0..2 model attackers, every subset of 5 candidate entry points "
              "(two non-existent steps, two steps on one asset) per attacker, x {nothing, a named node removed first} x "
@@ -94,6 +94,11 @@ def cases(tier, seed):
         for pat in pats:
             yield {"kind": "hist", "slots": 2, "nodes": 3,
                    "ops": [op + ["N" if pat >> k & 1 else "A"] for k, op in enumerate(seq)]}
+    # add_attacker given a reached-steps list that names one node TWICE (the pair must still be recorded once)
+    for tail in ([], [["u", 1, 0]], [["u", 1, 2], ["c", 1, 2]], [["c", 0, 0], ["u", 1, 0]], [["ra", 1], ["aa", 1, 2], ["u", 1, 0]]):
+        for side in ("A", "N"):
+            yield {"kind": "hist", "slots": 2, "nodes": 3,
+                   "ops": [op + [side] for op in [["ra", 1], ["aa", 1, 2]] + tail]}
     if tier == "thorough":
         for _ in range(200000):
             ops = []
@@ -101,7 +106,7 @@ def cases(tier, seed):
             for _k in range(rnd.randint(6, 14)):
                 j = rnd.randrange(3)
                 if not present[j]:
-                    op = ["aa", j, rnd.randrange(2)]; present[j] = True
+                    op = ["aa", j, rnd.randrange(3)]; present[j] = True
                 else:
                     kind = rnd.choice("cccuura")
                     if kind == "r":
@@ -186,7 +191,8 @@ def run_hist(recipe):
                     g.add_attacker(a)
                 else:
                     want = [0, nn - 1]
-                    g.add_attacker(a, None, [nodes[0].id], [nodes[i].id for i in want])
+                    given = want + [0] if op[2] == 2 else want          # op[2] == 2: node 0 is named twice
+                    g.add_attacker(a, None, [nodes[0].id], [nodes[i].id for i in given])
                     rel |= {(j, i) for i in want}
                 slots[j] = a
                 ever.append(a)
